@@ -1,2 +1,3 @@
 -- root of the library: importing a property module pulls in its model and helper lemmas
 import GnarkVerif.Props.C15
+import GnarkVerif.Props.C01
